@@ -15,8 +15,10 @@ RULE = ("generic_message over: service 0..0x7F (int and bytes), class/instance/a
         "values, request data of every length 0..64 and random to 400, transports {connected, direct UCMM, Unconnected Send}, route_path "
         "in {True, False, string, segment list, pre-encoded bytes}, driver paths spelled from the path grammar over 0-3 hop chassis, any "
         "reply data / status chosen by the target; helpers get_module_info(slot), get_plc_name, get_plc_info, get/set_plc_time "
-        "(0..year 9999 in microseconds). Oracle: the target's router journal entry (transport, service, path, data, route) equals the "
-        "request; Tag value equals the target's reply data (raw or reference-decoded). distinct = (transport, route_path form, "
+        "(0..year 9999 in microseconds); get_module_info on an empty slot; typed replies too short for the data type; re-open after a close() "
+        "whose Forward Close the target refused (connection timed out on the PLC). Oracle: the target's router journal entry (transport, service, "
+        "path, data, route) equals the request, the raw request path uses the segment widths the caller gave as bytes; Tag value equals the "
+        "target's reply data (raw or reference-decoded). distinct = (transport, route_path form, "
         "path widths, data-length parity, reply class) evaluated")
 ASSUMPTIONS = [
     "direct UCMM with a route: the encoded route follows the request data by design (Forward Open is built that way); the oracle expects data == request_data ++ route there",
